@@ -94,6 +94,32 @@ PROPS["C11"] = {
     ],
 }
 
+PROPS["C12"] = {
+    "level": "model_checking",
+    "technique": "bounded exhaustive enumeration of constructed candidate sets (members, identity, off-curve, curve/twist points outside the order-r subgroup, cofactor parts, small-order points, member + non-member; target-field elements outside the cyclotomic subgroup, cyclotomic elements of order not dividing r) through the real membership predicates, and of scalar alphabets through every g1_/g2_/gt_ multiplication form, against the definition evaluated by reference group laws and a reference quotient-ring tower on GMP",
+    "level_text": "Per parameter set (BN_P256 with D-type twist, SM9_P256 with M-type twist; B12_P381 in the 381-bit build, where G1 has a cofactor): the expected verdict of g1_is_valid / g2_is_valid / gt_is_valid is the definition itself -- on the curve, not the identity, annihilated by r -- computed by plain reference multiplication / exponentiation (no endomorphism shortcut). Candidates are built by the reference: multiples of the generators, off-curve neighbours, points lifted from small x (outside the subgroup when a cofactor exists), their [r]- and [h]-multiples, sums member + cofactor part, points of every prime order < 2^20 dividing the cofactor, points of another twist; GT: powers of the generator, 0, 1, -1, -g, sparse and dense field elements, their images under the easy part of the final exponentiation (cyclotomic, order not dividing r), those times a member, and their images under the hard part (members unrelated to the generator). Exponentiation: g1/g2 mul, mul_sec, mul_any, mul_dig, mul_gen, mul_fix, mul_sim, mul_sim_lot, mul_sim_gen and gt_exp, gt_exp_sec, gt_exp_dig, gt_exp_gen, gt_exp_sim for scalars 0, +-1, r-1, r, r+1, 2r, 2^k boundaries, longer than r, negative, curve-parameter multiples.",
+    "level_note": "Trusted: ref_ec.h / ref_ec2.h group laws, ref_ext.h tower with each level's constant read from the library and validated irreducible, twist type derived from the coefficients (b' = b/xi or b*xi). The k = 8, 16, 18, 24, 48 families need their own field-size builds and references over ep3/ep4/ep8 and are not driven.",
+    "rule": "cases are (parameter set, predicate or routine, candidate / base, scalar(s)); all counted non-trivial; distinct by 64-bit hash; transitions = individual verdicts / results compared with the reference.",
+    "assumptions": ["reference group laws and tower", "calls inside RLC_TRY", "DRBG re-seeded identically before every randomised routine"],
+    "jobs": [
+        {"name": "pc-w64", "world": "W64", "src": "props/C12_pc.c", "share": 0.5},
+        {"name": "pc-w64-381", "world": "W64-381", "src": "props/C12_pc.c"},
+    ],
+}
+
+PROPS["C04"] = {
+    "level": "model_checking",
+    "technique": "bounded exhaustive enumeration of (map, base points, scalar pair, operand representation) products and of multi-pairing lists with identities at every subset of positions through the real pairing code; oracle = the algebraic property itself with both sides computed independently: multiples [a]P, [b]Q by reference group laws, the power e(P,Q)^(ab) by a reference quotient-ring tower on GMP",
+    "level_text": "Per parameter set (BN_P256/D-type, SM9_P256/M-type; B12_P381 in the 381-bit build) and per map (pc_map, optimal ate, Tate, Weil): E0 = e(P0, Q0) for three base pairs must not be 0 or 1 and must satisfy E0^r = 1 (reference power); e([a]P0, [b]Q0) must equal E0^(ab mod r) for every (a, b) in {0, 1, 2, -1, r-1, r, r+1, 2^64, a 200-bit value}^2 (thorough: 13 scalars), with operands in affine and projective form (four combinations) -- identity operands arise as a or b in {0, r}; multi-pairings pc_map_sim / pp_map_sim_* over m in 0..4 (thorough 0..6) pairs with an identity in the G1 slot, the G2 slot or both at EVERY subset of positions for m <= 3 and at each single position above must equal E0^(sum a_i b_i). gt_get_gen must equal pc_map of the generators.",
+    "level_note": "No reference pairing: the value E0 itself is not compared with an external implementation, only its algebraic properties (which characterise a non-degenerate bilinear map up to a fixed power). Trusted: reference group laws and tower as in C12. A toy pairing world is not used: tiny BN/BLS parameters make Miller-loop exceptional cases frequent that cannot occur for 256-bit r. The k = 8, 16, 18, 24, 48 families are not driven (separate builds).",
+    "rule": "cases are (set, map, base, a, b, repP, repQ) and (set, map, m, identity pattern, scalar pattern); all non-trivial; distinct by 64-bit hash; transitions = pairing values compared.",
+    "assumptions": ["reference group laws and tower", "calls inside RLC_TRY"],
+    "jobs": [
+        {"name": "pair-w64", "world": "W64", "src": "props/C04_pair.c", "share": 0.5},
+        {"name": "pair-w64-381", "world": "W64-381", "src": "props/C04_pair.c"},
+    ],
+}
+
 PROPS["C07"] = {
     "level": "model_checking",
     "technique": "exhaustive enumeration of complete byte-string spaces given to the real decoders in the tiny build (every string of length 0..2/3 for integers, every 2-byte string per prime, every 1- and 3-byte string and structured 5-byte strings per tiny curve, every short text x every radix), tag x length x coordinate alphabets at shipped sizes, against a reference validity predicate and canonical encoder written from the format definition",
